@@ -1,6 +1,7 @@
 import Revm.Proofs.EvmLinkFeeVal
 import Revm.Proofs.EvmSpec
 import Revm.Proofs.EvmLinkLoop2
+import Revm.Proofs.EvmLinkPay
 /-! C01Link — the whole-transaction model `Revm.Model.Evm.transact` (C01) SATISFIES the component properties.
 
 `Evm.transact` (EvmTx / EvmFrame / EvmLoop / EvmHost) was written independently of the component models that carry the
@@ -271,6 +272,55 @@ theorem transact_halt_used_exact (fuel : Nat) (w w' : World) (e : Evm.Env) (spec
   exact Props.C09.halt_used_exact _ ig fg k _ ha hgc (by omega)
 
 example : (Interp.IResult.OutOfGas).isOk = false ∧ (Interp.IResult.OutOfGas).isRevert = false := ⟨rfl, rfl⟩
+
+
+/-- COROLLARY (C09 `sender_pays` on the RESULT of `Evm.transact`): for a completed executed transaction — validated
+sender balance below 2^256, the frame machine's guarantee — the sender pays exactly
+`effective gas price · gas_used + blob fee` through the two fee legs of the handler:
+* the balance validation saw covers `gas_limit · eff + blob_fee`, and the `deduct_caller` inside `prepare` (run on the
+  world after `load_accounts`) finds that very balance and leaves it lower by exactly that amount (no saturation);
+* `reimburse_caller` adds to whatever the execution left on the sender's account (`accX`, loaded from the world `w3` the
+  first frame left) exactly `(gas_limit · eff + blob_fee) − (eff · gas_used + blob_fee)`, with `saturating_add`
+  (the sender is not the beneficiary). -/
+theorem transact_sender_pays (fuel : Nat) (w w' : World) (e : Evm.Env) (spec : Nat) (r : TxResult)
+    (h : Evm.transact fuel w e spec = .ok (.executed r, w'))
+    (hL : e.tx.gasLimit < U64) (hfa : FrameAccounting fuel w e spec) :
+    ∃ (w1 : World) (accV : Journal.Acct) (code : List Nat) (ig fg k : Nat) (res : Interp.ChildResult) (w3 : World),
+      loadSender w e.tx.caller = .ok (w1, accV, code) ∧
+      FirstFrameResult fuel w e spec ig fg k res w3 ∧
+      (accV.info.balance < W →
+        e.tx.gasLimit * effPrice e spec + blobFeeOf e spec ≤ accV.info.balance ∧
+        effPrice e spec * r.gasUsed + blobFeeOf e spec ≤ e.tx.gasLimit * effPrice e spec + blobFeeOf e spec ∧
+        (∃ wd accD, deductCaller e (GasCalc.canon spec) (loadAccounts e (GasCalc.canon spec) w1) = .ok wd ∧
+          wd.js.state e.tx.caller = some accD ∧
+          accD.info.balance = accV.info.balance - (e.tx.gasLimit * effPrice e spec + blobFeeOf e spec)) ∧
+        (e.tx.caller ≠ e.block.coinbase → ∃ (wx : World) (c : Bool) (accX accF : Journal.Acct),
+          w3.loadAccount e.tx.caller = .ok (wx, c) ∧ wx.acct e.tx.caller = .ok accX ∧
+          w'.js.state e.tx.caller = some accF ∧
+          accF.info.balance = U256.saturatingAdd accX.info.balance
+            (e.tx.gasLimit * effPrice e spec + blobFeeOf e spec -
+              (effPrice e spec * r.gasUsed + blobFeeOf e spec)))) := by
+  obtain ⟨w1, accV, code, ig, fg, k, res, w3, hl, hff, hrest⟩ := transact_payments fuel w w' e spec r h hL hfa
+  refine ⟨w1, accV, code, ig, fg, k, res, w3, hl, hff, fun hW => ?_⟩
+  obtain ⟨a, b, c, d, _⟩ := hrest hW
+  exact ⟨a, b, c, d⟩
+
+/-- COROLLARY (C09 `beneficiary_gets` on the RESULT of `Evm.transact`): the beneficiary's account in the final world is
+the account `reward_beneficiary` loaded (`accB`) plus exactly `(effective price − base fee) · gas_used` from London on,
+`effective price · gas_used` before — no 256-bit wrap in the product; the addition saturates -/
+theorem transact_beneficiary_gets (fuel : Nat) (w w' : World) (e : Evm.Env) (spec : Nat) (r : TxResult)
+    (h : Evm.transact fuel w e spec = .ok (.executed r, w'))
+    (hL : e.tx.gasLimit < U64) (hfa : FrameAccounting fuel w e spec) :
+    ∃ (w1 : World) (accV : Journal.Acct) (code : List Nat),
+      loadSender w e.tx.caller = .ok (w1, accV, code) ∧
+      (accV.info.balance < W →
+        ∃ (wy : World) (accB accG : Journal.Acct), wy.acct e.block.coinbase = .ok accB ∧
+          w'.js.state e.block.coinbase = some accG ∧
+          accG.info.balance = U256.saturatingAdd accB.info.balance (tipPrice e spec * r.gasUsed)) := by
+  obtain ⟨w1, accV, code, ig, fg, k, res, w3, hl, hff, hrest⟩ := transact_payments fuel w w' e spec r h hL hfa
+  exact ⟨w1, accV, code, hl, fun hW => (hrest hW).2.2.2.2⟩
+
+example : (10 : Nat)^18 < W := by rw [W_val]; decide
 
 /-! ## 3. frame depth (C07)
 
